@@ -68,10 +68,11 @@ type vfFaultCtl struct {
 	hit        bool   // the fault was delivered
 	trace      []byte // one letter per event: lower case primary, upper case cache
 	down       bool   // primary: every statement fails
+	downAfter  int    // primary: becomes unreachable after this many more statements (-1: never)
 	readDelay  time.Duration
 }
 
-var vfF = &vfFaultCtl{failAt: -1}
+var vfF = &vfFaultCtl{failAt: -1, downAfter: -1}
 
 func (f *vfFaultCtl) arm(failAt int, commitPost bool) {
 	f.mu.Lock()
@@ -92,8 +93,15 @@ func (f *vfFaultCtl) disarm() (n int, hit bool, trace string) {
 func (f *vfFaultCtl) event(role byte, kind byte) error {
 	f.mu.Lock()
 	defer f.mu.Unlock()
-	if role == 'p' && f.down {
-		return errVfDown
+	if role == 'p' {
+		if f.downAfter == 0 {
+			f.down, f.downAfter = true, -1
+		} else if f.downAfter > 0 {
+			f.downAfter--
+		}
+		if f.down {
+			return errVfDown
+		}
 	}
 	if !f.armed || f.gid != vfGoroutineID() {
 		return nil
@@ -730,7 +738,7 @@ func vfC15Setup(t *testing.T) (*vfC15, func()) {
 	if h.rawC, err = sql.Open("sqlite3", cPath); err != nil {
 		t.Fatal(err)
 	}
-	*vfF = vfFaultCtl{failAt: -1}
+	*vfF = vfFaultCtl{failAt: -1, downAfter: -1}
 	state.HostIdentity = "vfhost.example"
 	u2fAppID = vfC15Origin
 	u2fTrustedFacets = []string{vfC15Origin}
@@ -934,6 +942,12 @@ func (h *vfC15) op(f []string) string {
 			return "bad-op"
 		}
 		return h.outage(f[1], a[0], a[1])
+	case f[0] == "flap" && len(f) == 4:
+		a, ok := vfInts(f[2:])
+		if !ok {
+			return "bad-op"
+		}
+		return h.flap(f[1], a[0], a[1])
 	case f[0] == "stale" && len(f) == 5:
 		a, ok := vfInts(f[2:])
 		if !ok {
@@ -976,7 +990,7 @@ func (h *vfC15) post(handler http.HandlerFunc, path string, authUser string, for
 //	down  every statement on the primary fails
 func (h *vfC15) setMode(mode string) bool {
 	vfF.mu.Lock()
-	vfF.down, vfF.readDelay = false, 0
+	vfF.down, vfF.readDelay, vfF.downAfter = false, 0, -1
 	vfF.mu.Unlock()
 	h.state.remoteDBQueryTimeout = 2 * time.Second
 	switch mode {
@@ -1156,6 +1170,105 @@ func (h *vfC15) stale(mode string, u, pidOld, pidNew int) string {
 		}
 	}
 	return fmt.Sprintf("ok begin=%s finish=%s primary=%s | %s", begin, finish, row, h.digest())
+}
+
+// flap <route> <u> <pid>: the primary becomes unreachable after its k-th statement, for every k
+// until the request completes untouched ("primary outage at any point of a request").  Per k:
+// the handler's answer, whether the row the route writes is still the old one (old), an
+// intact different one (new) or undecodable (corrupt), and whether the cache is unchanged.
+// The primary is restored after every k.
+func (h *vfC15) flap(route string, u, pid int) string {
+	state := h.state
+	user := vfUserName(u)
+	p := h.build(pid)
+	h.setMode("up")
+	if err := state.SaveUserProfile(user, p); err != nil {
+		return "err save"
+	}
+	if err, _, _, _ := h.sync(-1, false); err != nil {
+		return "err sync"
+	}
+	snapP := h.snapshot(h.rawP)
+	target := user
+	var call func() string
+	uf := func(kv ...string) url.Values {
+		v := url.Values{}
+		for i := 0; i+1 < len(kv); i += 2 {
+			v.Set(kv[i], kv[i+1])
+		}
+		return v
+	}
+	switch route {
+	case "mgU2F":
+		if len(p.U2fAuthData) == 0 {
+			return "bad-op"
+		}
+		idx := firstKey(p.U2fAuthData)
+		call = func() string {
+			return h.post(state.u2fTokenManagerHandler, u2fTokenManagementPath, user,
+				uf("username", user, "index", strconv.FormatInt(idx, 10), "action", "Delete"), nil)
+		}
+	case "genTOTP":
+		call = func() string { return h.post(state.GenerateNewTOTP, totpGeneratNewPath, user, uf(), nil) }
+	case "addUser":
+		target = vfUserName(1000 + u)
+		call = func() string {
+			return h.post(state.addUserHandler, addUserPath, "admin", uf("username", target), nil)
+		}
+	case "deleteUser":
+		call = func() string {
+			return h.post(state.deleteUserHandler, deleteUserPath, "admin", uf("username", user), nil)
+		}
+	default:
+		return "bad-op"
+	}
+	rowOf := func() string {
+		var blob []byte
+		err := h.rawP.QueryRow("SELECT profile_data FROM user_profile WHERE username = ?", target).Scan(&blob)
+		if err != nil {
+			return "absent"
+		}
+		return h.pidOfBlob(blob)
+	}
+	before := rowOf()
+	cacheBefore := h.digestOne(h.rawC, "C")
+	var res []string
+	for k := 0; k <= 40; k++ {
+		h.state.remoteDBQueryTimeout = 40 * time.Millisecond
+		vfF.mu.Lock()
+		vfF.down, vfF.downAfter = false, k
+		vfF.mu.Unlock()
+		code := call()
+		time.Sleep(5 * time.Millisecond)
+		vfF.mu.Lock()
+		wentDown := vfF.down
+		vfF.down, vfF.downAfter = false, -1
+		vfF.mu.Unlock()
+		switch code {
+		case "503":
+			code = "refused"
+		case "500":
+			code = "failed"
+		case "200", "302":
+			code = "ok"
+		}
+		row := rowOf()
+		switch {
+		case row == before:
+			row = "old"
+		case strings.Contains(row, "!gob"):
+			row = "corrupt"
+		default:
+			row = "new"
+		}
+		res = append(res, fmt.Sprintf("%d:%s:%s:%s", k, code, row, vfBool(h.digestOne(h.rawC, "C") == cacheBefore)))
+		h.restore(h.rawP, snapP)
+		if !wentDown {
+			break
+		}
+	}
+	h.setMode("up")
+	return fmt.Sprintf("ok flap %s %s | %s", route, strings.Join(res, " "), h.digest())
 }
 
 func firstKey(m map[int64]*u2fAuthData) int64 {
